@@ -7,7 +7,7 @@ use crate::proj;
 use crate::tok::{self, TKind};
 use serde_json::json;
 
-pub const FORMS: [(&str, &str, &str); 18] = [
+pub const FORMS: [(&str, &str, &str); 20] = [
     // a comment directly after the left token, no blank in between (`Wind-Speed-- km/h`): `--` cannot be part of a
     // reference or number, so it starts a comment (X.680 12.6.1)
     ("line-comment-glued", "-- c\n", "comment"),
@@ -27,6 +27,9 @@ pub const FORMS: [(&str, &str, &str); 18] = [
     ("line-comment-hostile", " -- \"x\" END { é\n", "comment"),
     ("block-comment-multiline", " /* a\n b */ ", "comment"),
     ("block-comment-lone-quote", " /* 3.5\" drive */ ", "comment"),
+    // empty comments: `--` closed by the very next `--` (X.680 12.6.3), once and twice in a row
+    ("empty-comment", " ---- ", "comment"),
+    ("empty-comments-run", " -------- ", "comment"),
     // comment text that happens to read like the doc text the compiler gives to the types it makes up itself (last entry)
     ("line-comment-marker-words", " -- Anonymous inner type\n", "comment"),
 ];
@@ -499,7 +502,7 @@ fn corpus_input(c: &Corpus, i: usize) -> Option<Input> {
 pub fn run(ctx: &Ctx) -> Report {
     let mut rep = Report::new(
         "exploration",
-        "inputs: grammar-G module sets re-tokenised by the harness's own X.680 tokenizer (all boundaries when <= budget, else a random subset) and real-world corpus modules (only those whose single-space re-join reproduces the original outcome; sampled boundaries); transformation: the separator at ONE token boundary replaced by tab / LF / CRLF / mixed blanks / nothing (only where the two tokens stay separable) / `-- c` to end of line (LF and CRLF) / `-- c --` / `/* c */` (spaced and tight) / nested block comment / multi-line block comment / comments containing quotes, braces, keywords, non-ASCII. Additionally N random multi-boundary re-layouts per input (each boundary independently re-laid with a random form, density 1/1..1/6: mixed line endings and comment kinds). Verdict: same Ok/Err status, same number of warnings, identical token-normalised bindings with #[doc] removed. Non-trivial = a re-layout that our tokenizer confirms to have the same token sequence; distinct by text.",
+        "inputs: grammar-G module sets re-tokenised by the harness's own X.680 tokenizer (all boundaries when <= budget, else a random subset) and real-world corpus modules (only those whose single-space re-join reproduces the original outcome; sampled boundaries); transformation: the separator at ONE token boundary replaced by tab / LF / CRLF / mixed blanks / nothing (only where the two tokens stay separable) / `-- c` to end of line (LF and CRLF) / `-- c --` / `/* c */` (spaced and tight) / nested block comment / multi-line block comment / comments containing quotes, braces, keywords, non-ASCII / empty comments `----` and `--------`. Additionally N random multi-boundary re-layouts per input (each boundary independently re-laid with a random form, density 1/1..1/6: mixed line endings and comment kinds). Verdict: same Ok/Err status, same number of warnings, identical token-normalised bindings with #[doc] removed. Non-trivial = a re-layout that our tokenizer confirms to have the same token sequence; distinct by text.",
     );
     rep.must_observe = vec!["templates_used".into(), "relayouts[multi-boundary]".into(), "relayouts[ws]".into(), "relayouts[comment]".into(), "relayouts[none]".into(), "baseline[Ok]".into()];
     rep.assumptions = vec!["harness tokenizer (tok.rs) decides token boundaries; `-` directly before a number is not separated".into()];
@@ -521,7 +524,7 @@ pub fn run(ctx: &Ctx) -> Report {
     let corpus = load_corpus();
     let n_g = ctx.pick(90u64, 1500);
     let n_c = ctx.pick(50usize, 200);
-    let quick_forms: Vec<usize> = vec![0, 1, 2, 4, 6, 7, 9, 10, 13, 14, 16, 17];
+    let quick_forms: Vec<usize> = vec![0, 1, 2, 4, 6, 7, 9, 10, 13, 14, 16, 17, 19];
     let all_forms: Vec<usize> = (0..FORMS.len()).collect();
     let forms = if ctx.quick() { quick_forms } else { all_forms };
     let max_b = ctx.pick(90usize, 300);
